@@ -11,14 +11,15 @@ Proof.
   induction rows as [|row r IH]; intros s H; [reflexivity|]. cbn [fold_left].
   assert (E : atom_row dh fo hdr s row = s) by (unfold atom_row; rewrite H; reflexivity). rewrite E. apply IH. exact H.
 Qed.
-Theorem cif_row_of_another_model_stops dh hdr s row f element e1 :
+Theorem cif_row_of_another_model_stops dh hdr s row f element e1 name e4 :
   q_stop s = false -> q_first s = Some f -> Z.eqb f (row_model hdr row) = false ->
   column get_text' hdr row "atom_site.type_symbol" = (Some element, e1) ->
-  (dh && text_eqb element (stext "H"))%bool = false ->
+  column get_text' hdr row "atom_site.label_atom_id" = (Some name, e4) ->
+  (dh && is_hydrogen element name)%bool = false ->
   let t := atom_row dh true hdr s row in
   q_stop t = true /\ q_models t = q_models s /\ q_ids t = q_ids s /\ q_first t = q_first s.
 Proof.
-  unfold row_model. intros Hs Hf Hm He Hh. unfold atom_row. rewrite Hs, He, Hh.
+  unfold row_model. intros Hs Hf Hm He Hn Hh. unfold atom_row. rewrite Hs, He, Hn, Hh.
   destruct (column get_usize hdr row "atom_site.pdbx_PDB_model_num") as [mn e2]. cbn [fst] in Hm.
   rewrite Hf. cbn [andb]. rewrite Hm. cbn [negb]. repeat split.
 Qed.
